@@ -26,7 +26,7 @@ STUBS = ["polar_to_rad (cmath.rect, compiled) -> unit-circle phasors of the same
          "system return the same solution", "dcpf (linear solve) -> captures (B, Pbus, Va0)"]
 ASSUMPTIONS = ["one ConstControl-controlled column at a time becomes symbolic (new value x_new in a positive range), previous step concrete",
                "the recycle flags are those the real ConstControl.set_recycle and _check_controller_recyclability compute for that controller"]
-OUTSIDE = ["controllers other than ConstControl", "OutputWriter file formats", "tap-dependent trafo3w rows (thorough only)"]
+OUTSIDE = ["controllers other than ConstControl", "OutputWriter file formats"]
 BOUNDS = {"quick": "3 buses (110/20/20 kV), trafo, line, load, sgen, gen, storage; 24 (element, variable) pairs x {runpp, rundcpp}; 5 pairs on a net with an open line switch, an open trafo switch and a line at an out of service bus; batch branch flows on a 5-bus feeder (all supplied / unsupplied branches / out of service bus)",
           "thorough": "same + trafo3w net"}
 
@@ -38,7 +38,7 @@ AC_PAIRS = [("load", "p_mw"), ("load", "q_mvar"), ("load", "scaling"), ("sgen", 
 DC_PAIRS = [("load", "p_mw"), ("sgen", "p_mw"), ("gen", "p_mw"), ("ext_grid", "va_degree"), ("trafo", "tap_pos"), ("trafo", "vk_percent"),
             ("trafo", "shift_degree"), ("line", "x_ohm_per_km"), ("line", "length_km")]
 RANGE = {"p_mw": (0.1, 5.), "q_mvar": (0.1, 5.), "scaling": (0.1, 2.), "vm_pu": (0.9, 1.1), "va_degree": (-10., 10.), "tap_pos": (-2., 2.),
-         "vk_percent": (4., 20.), "vkr_percent": (0.1, 1.), "i0_percent": (0.01, 1.), "sn_mva": (10., 100.), "shift_degree": (-30., 30.),
+         "vk_percent": (4., 20.), "vkr_percent": (0.1, 1.), "vk_hv_percent": (4., 20.), "shift_mv_degree": (-30., 30.), "i0_percent": (0.01, 1.), "sn_mva": (10., 100.), "shift_degree": (-30., 30.),
          "r_ohm_per_km": (0.01, 1.), "x_ohm_per_km": (0.01, 1.), "c_nf_per_km": (1., 300.), "length_km": (0.1, 20.), "parallel": (1., 3.)}
 _cache = {}
 
@@ -65,6 +65,11 @@ def _net(element, var, ac, topo=None):
     pp.create_sgen(net, b2, 0.2, 0.1)
     pp.create_storage(net, b2, 0.1, 1., q_mvar=0.05)
     pp.create_gen(net, b1, 0.5, vm_pu=1.01)
+    if topo == "with_trafo3w":
+        b4 = pp.create_bus(net, 10.)
+        pp.create_transformer3w_from_parameters(net, b0, b2, b4, 110, 20, 10, 40, 20, 20, 10, 10, 10, .3, .3, .3, 20, 0.05, tap_side="hv", tap_neutral=0,
+                                                tap_min=-2, tap_max=2, tap_step_percent=1.5, tap_pos=0, tap_changer_type="Ratio")
+        pp.create_load(net, b4, 0.5, 0.1)
     if topo == "open_switches":
         # branches whose ppc rows differ from the element tables: an end moved to an auxiliary bus by an open switch / an out of service bus
         b3 = pp.create_bus(net, 20., in_service=False)
@@ -451,6 +456,12 @@ def instances(tier):
     for el, var in [("trafo", "tap_pos"), ("line", "length_km"), ("load", "p_mw")] + ([("trafo", "vk_percent"), ("line", "r_ohm_per_km"), ("gen", "vm_pu")] if tier == "thorough" else []):
         out.append(Inst(f"ac_open_switches_{el}.{var}", make_ac(el, var, "open_switches"), nvars=14, samples=2,
                         meta=dict(run="runpp", element=el, variable=var, topology="open line switch, open trafo switch, line at an out of service bus"), raises=(UserWarning,)))
+    # a three-winding transformer next to a two-winding one: profiles on either must rebuild the rows of both kinds that depend on them
+    for el, var in [("trafo3w", "tap_pos"), ("trafo", "tap_pos")] + ([("trafo3w", "vk_hv_percent"), ("trafo3w", "shift_mv_degree")] if tier == "thorough" else []):
+        out.append(Inst(f"ac_with_trafo3w_{el}.{var}", make_ac(el, var, "with_trafo3w"), nvars=14, samples=2,
+                        meta=dict(run="runpp", element=el, variable=var, topology="two-winding and three-winding transformer"), raises=(UserWarning,)))
+    out.append(Inst("dc_with_trafo3w_trafo3w.tap_pos", make_dc("trafo3w", "tap_pos", "with_trafo3w"), nvars=14, samples=2,
+                    meta=dict(run="rundcpp", element="trafo3w", variable="tap_pos", topology="two-winding and three-winding transformer"), raises=(UserWarning,)))
     for el, var in [("trafo", "tap_pos"), ("line", "x_ohm_per_km")]:
         out.append(Inst(f"dc_open_switches_{el}.{var}", make_dc(el, var, "open_switches"), nvars=14, samples=2,
                         meta=dict(run="rundcpp", element=el, variable=var, topology="open line switch, open trafo switch, line at an out of service bus"), raises=(UserWarning,)))
